@@ -213,6 +213,27 @@ def check_tau(ctx, algo):
                "(thresholds of existing depths would keep an old delta~)", fn.lineno)
         loops = [l for l in ast.walk(fn) if isinstance(l, ast.For) and any(isinstance(x, ast.Call) and norm_src(x.func) == "self.tau_h.append"
                                                                           for x in ast.walk(l))]
+        if not loops:
+            # equivalent spelling: self.tau_h.extend(f(i) for i in range(1, D+1)) -> rewritten as the loop it stands for
+            for st in ast.walk(fn):
+                if isinstance(st, ast.Expr) and isinstance(st.value, ast.Call) and norm_src(st.value.func) == "self.tau_h.extend" and \
+                        len(st.value.args) == 1 and isinstance(st.value.args[0], (ast.GeneratorExp, ast.ListComp)) and \
+                        len(st.value.args[0].generators) == 1 and not st.value.args[0].generators[0].ifs:
+                    ge = st.value.args[0]
+                    call = ast.Call(func=ast.parse("self.tau_h.append", mode="eval").body, args=[ge.elt], keywords=[])
+                    loop = ast.For(target=ge.generators[0].target, iter=ge.generators[0].iter, body=[ast.Expr(value=call)], orelse=[])
+                    ast.copy_location(loop, st)
+                    ast.fix_missing_locations(loop)
+                    par = model.up(st)
+                    for fld in ("body", "orelse"):
+                        b = getattr(par, fld, None)
+                        if isinstance(b, list) and st in b:
+                            b[b.index(st)] = loop
+                    model.parent[id(loop)] = par
+                    loops = [loop]
+                    fc = CS.FnCtx(model, E.Effects(model), "HCT", fn)
+                    inits = [(n, r) for n, r in fc.defs_of("self.tau_h")]
+                    break
         okl = len(loops) == 1 and norm_src(loops[0].iter) == "range(1, self.partition.get_depth() + 1)" and isinstance(loops[0].target, ast.Name)
         ctx.ob("R05-TAU", okl, c.file, qual, "one threshold per depth 1..D in order",
                "for %s in %s" % (norm_src(loops[0].target), norm_src(loops[0].iter)) if loops else "no threshold loop", fn.lineno)
